@@ -12,7 +12,7 @@ Tr == ndJsonDeserialize(IOEnv.TRACE)
 OutFile == IOEnv.OUT
 CovKeys == {"rows", "svd_rows", "svd_second_compute", "svd_rank_deficient", "svd_tall", "svd_wide", "svd_square", "svd_factor_judged",
             "lob_rows", "lob_success", "lob_not_success", "lob_threw", "dav_rows", "dav_successful", "dav_notconv", "dav_restarts", "dav_guess", "dav_threw",
-            "jd_iters"}
+            "jd_iters", "mt_jobs", "mt_shared", "mt_private", "mt_breakdown", "mt_threads_max"}
 Bump(c, key, by) == [c EXCEPT ![key] = @ + by]
 Hit(rule) == [r |-> rule, run |-> 1, l |-> l]
 If(c, rule) == IF c THEN {} ELSE {Hit(rule)}
@@ -24,15 +24,16 @@ QC == 128
 \* ---------------------------------------------------------------- C16
 \* factor identities only for requested singular values above 1e-4 ||A|| (q(1e-4) = -213)
 SvdLeading(e) == \A i \in 1 .. Len(e.qsrel) : e.qsrel[i] >= -213
+SvdPartial(e) == "partial" \in DOMAIN e
 SvdHits(e) ==
     If(e.fin = 1, "SvdFinite") \cup If(e.nonneg = 1, "SingularValuesNonNegative") \cup If(e.noninc = 1, "SingularValuesNonIncreasing")
     \cup If(e.nsv = e.nconv /\ e.nconv <= e.ncomp, "CountsAgree")
     \cup If(\A i \in 1 .. Len(e.ks) : e.uc[i] = MinI2(e.ks[i], e.nconv) /\ e.vc[i] = MinI2(e.ks[i], e.nconv), "ColsAreMinKNconv")
     \cup If(e.urows = e.m /\ e.vrows = e.n, "FactorShapes")
     \* any order of calls: matrix_U(1) first, then matrix_V(ncomp) and matrix_U(ncomp) still return min(ncomp, nconv) columns
-    \cup If(e.inc_u1 = MinI2(1, e.inc_nconv) /\ e.inc_v = MinI2(e.ncomp, e.inc_nconv) /\ e.inc_u = MinI2(e.ncomp, e.inc_nconv), "ColsIndependentOfCallOrder")
+    \cup If(SvdPartial(e) \/ (e.inc_u1 = MinI2(1, e.inc_nconv) /\ e.inc_v = MinI2(e.ncomp, e.inc_nconv) /\ e.inc_u = MinI2(e.ncomp, e.inc_nconv)), "ColsIndependentOfCallOrder")
     \* matrix_U / matrix_V always describe the most recent compute(): same bits as a fresh solver given the same call
-    \cup If(e.dg = e.fdg /\ e.nconv = e.fnconv, "DescribesMostRecentCompute")
+    \cup (IF SvdPartial(e) THEN {} ELSE If(e.dg = e.fdg /\ e.nconv = e.fnconv, "DescribesMostRecentCompute"))
     \cup (IF e.nconv > 0 /\ SvdLeading(e)
           THEN LET bnd == SumBound(e.qtol + QC, QC + e.qn + EPSD) IN
                If(\A i \in 1 .. Len(e.qdist) : QLe(e.qdist[i], bnd), "MatchesLargestSingularValues")
@@ -78,6 +79,11 @@ DavHits(e) ==
                           THEN If({e.ridx[i] : i \in 1 .. Len(e.ridx)} = DavWanted(e), "ReturnedIsWanted") ELSE {})
                ELSE {})
 
+\* ---------------------------------------------------------------- C20
+\* a job run concurrently with others produces event for event the same trace and bit for bit the same results as when run alone
+MtHits(e) ==
+    If(e.con_n = e.seq_n /\ e.con_ev = e.seq_ev, "ConcurrentTraceIdentical") \cup If(e.con_res = e.seq_res, "ConcurrentResultsIdentical")
+
 TrInit == l = 1 /\ mon = {} /\ cov = [key \in CovKeys |-> 0]
 TrStep ==
     /\ l <= Len(Tr)
@@ -85,7 +91,8 @@ TrStep ==
         /\ mon' = AddHits(mon, CASE e.e = "Svd" -> SvdHits(e)
                                  [] e.e = "Lob" -> LobHits(e)
                                  [] e.e = "Dav" -> DavHits(e)
-                                 [] e.e \in {"Reset", "EndAux", "JDIter"} -> {}
+                                 [] e.e = "MtJob" -> MtHits(e)
+                                 [] e.e \in {"Reset", "EndAux", "JDIter", "EndMt"} -> {}
                                  [] OTHER -> {Hit("UnknownRow")})
         /\ cov' = LET c0 == Bump(cov, "rows", 1) IN
                   CASE e.e = "Svd" -> Bump(Bump(Bump(Bump(Bump(c0, "svd_rows", 1), "svd_second_compute", IF e.call = 2 THEN 1 ELSE 0),
@@ -95,6 +102,8 @@ TrStep ==
                     [] e.e = "Lob" -> Bump(Bump(c0, "lob_rows", 1), IF e.thr = 1 THEN "lob_threw" ELSE IF e.info = 0 THEN "lob_success" ELSE "lob_not_success", 1)
                     [] e.e = "Dav" -> IF e.thr # 0 THEN Bump(Bump(c0, "dav_rows", 1), "dav_threw", 1)
                                       ELSE Bump(Bump(Bump(c0, "dav_rows", 1), IF e.info = 0 THEN "dav_successful" ELSE "dav_notconv", 1), "dav_guess", IF e.guess > 0 THEN 1 ELSE 0)
+                    [] e.e = "MtJob" -> Bump(Bump(Bump(Bump(c0, "mt_jobs", 1), IF e.shared = 1 THEN "mt_shared" ELSE "mt_private", 1), "mt_breakdown", e.variant),
+                                            "mt_threads_max", IF e.threads > cov["mt_threads_max"] THEN e.threads - cov["mt_threads_max"] ELSE 0)
                     [] e.e = "JDIter" -> Bump(Bump(c0, "jd_iters", 1), "dav_restarts", e.v[3])
                     [] OTHER -> c0
     /\ l' = l + 1
